@@ -10,6 +10,9 @@ intermediate is exact.  Its `_compute_jacobian` returns the exact partials at th
 last execution, as dense arrays, SciPy CSR arrays or `JacobianOperator`s, either for all
 (output, input) pairs or only for the requested ones (both styles exist among GEMSEO's own
 disciplines).
+
+`FlexDisc`: the same specification read as a template defined for input vectors of ANY length
+(`harness/c09_flex.py`): the sizes are data of the input point, not part of the object.
 """
 
 from __future__ import annotations
@@ -48,7 +51,11 @@ class PolyDisc(Discipline):
         self.calls = []  # (input_names, output_names) of every _compute_jacobian call
         self.lin_data = []  # input values (io.data) at every _compute_jacobian call: the linearization point
         self.n_run = 0
-        self._poly = {
+        self._poly = self._compile(spec["poly"])
+
+    @staticmethod
+    def _compile(poly):
+        return {
             o: [
                 (
                     float(Fraction(c["c"])),
@@ -57,7 +64,7 @@ class PolyDisc(Discipline):
                 )
                 for c in comps
             ]
-            for o, comps in spec["poly"].items()
+            for o, comps in poly.items()
         }
 
     def _run(self, input_data):
@@ -119,3 +126,30 @@ class PolyDisc(Discipline):
                 else:
                     jac[o][n] = m
         self.jac = jac
+
+
+class FlexDisc(PolyDisc):
+    """A size-agnostic discipline: the template of `harness/c09_flex.py` evaluated at the lengths of the
+    input vectors it receives (element-wise-like functions of vectors of any length; the lengths of the
+    outputs follow the length of the first input).  No size is remembered from one call to the next."""
+
+    def __init__(self, spec: dict[str, Any]) -> None:
+        super().__init__(spec)
+        self.template = spec
+
+    def _at_sizes_of(self, data) -> None:
+        from harness.c09_flex import expand_spec
+
+        lens = {n: len(np.atleast_1d(data[n])) for n, _ in self.template["ins"]}
+        sp = expand_spec(self.template, lens)
+        self.in_sizes = {n: int(s) for n, s in sp["ins"]}
+        self.out_sizes = {n: int(s) for n, s in sp["outs"]}
+        self._poly = self._compile(sp["poly"])
+
+    def _run(self, input_data):
+        self._at_sizes_of(input_data)
+        return super()._run(input_data)
+
+    def _compute_jacobian(self, input_names=(), output_names=()):
+        self._at_sizes_of(self.io.data)
+        super()._compute_jacobian(input_names, output_names)
